@@ -41,6 +41,8 @@ POOL = [
     ':checked', ':in-range', ':out-of-range', ':disabled', ':enabled', ':required', ':read-write', ':placeholder-shown',
     ':empty', ':first-child', ':root', 'p:-soup-contains("x")', ':is(:default, :indeterminate, :lang(""))',
     'form:has(:indeterminate) :default', ':defined', ':link', 'input', '*', 'fieldset *', ':last-of-type',
+    # several root candidates in one call: the document element and the top-level nodes of every iframe document
+    ':root', ':not(:root)', 'iframe :root', ':root > *', 'p:root, div:root, html:root', 'iframe > :root:first-child',
     # plain attribute readers (they normalise whatever a program stored on the element)
     '.x, .k', '[title~=abc]', '#i1, #a', '[data-cols]', '[class*=x]:not([rel~=k])', '[unknown|=k]',
 ]
@@ -141,8 +143,16 @@ def check_step(recipe, doc, snap, history, fails, NS=None, odd=None):
     desc = [d for d in target.descendants if isinstance(d, bs4.Tag)]
     # (1) select shares one matcher across elements; match builds a fresh one per element
     if call['call'] in ('select', 'iselect', 'select_one', 'filter', 'filter-list'):
-        sel_ids = {id(x) for x in q(sv.select, text, target, namespaces=NS)}
-        per = {id(d) for d in desc if q(sv.match, text, d, namespaces=NS)}
+        try:
+            sel_ids = {id(x) for x in q(sv.select, text, target, namespaces=NS)}
+            per = {id(d) for d in desc if q(sv.match, text, d, namespaces=NS)}
+            kids = list(target.contents)
+            f1 = [id(x) for x in q(sv.filter, text, target, namespaces=NS)]
+            f2 = [id(x) for x in q(sv.filter, text, kids, namespaces=NS)]
+            f3 = [id(x) for x in q(sv.filter, text, kids[::-1], namespaces=NS)][::-1]
+        except Exception as e:  # noqa: BLE001  (the recorded call itself returned: the same question asked another way raises)
+            fails.append(('raises-' + type(e).__name__, f'{text!r} through select/match/filter after {call}: {e!r:.200}'))
+            return None
         info['n'] = len(desc)
         info['nonempty'] = bool(sel_ids)
         if sel_ids != per:
@@ -152,10 +162,6 @@ def check_step(recipe, doc, snap, history, fails, NS=None, odd=None):
                           f'{text!r}: select and match disagree on element positions {diff[:8]} '
                           f'(select has {len(sel_ids)}, match has {len(per)})'))
         # (3) filter(tag) vs filter(list) vs reversed
-        kids = list(target.contents)
-        f1 = [id(x) for x in q(sv.filter, text, target, namespaces=NS)]
-        f2 = [id(x) for x in q(sv.filter, text, kids, namespaces=NS)]
-        f3 = [id(x) for x in q(sv.filter, text, kids[::-1], namespaces=NS)][::-1]
         if not (f1 == f2 == f3):
             fails.append(('filter-tag-differs-from-filter-list', f'{text!r}: {len(f1)}/{len(f2)}/{len(f3)} children'))
     # (3b) filter() over parentless nodes from different trees: every item is its own question, in any order
